@@ -197,7 +197,7 @@ PROPS.update({
         claim='Unbounded proof (any memo size, any mutator outcome for the index) that GET-family indices are defined, PUT-family indices are fresh, and no PUT executes on MARK/empty stack.',
         note=_NOTE, assumptions=_CORE_ASSUME),
     'C04': dict(
-        title='Every output is a well-formed opcode stream', verus=['core', 'mutv'], kani_quick=['u7_as_u8_all_kinds'] + U0, kani_thorough=U8_THOROUGH, scans=['textformats'], level='proof',
+        title='Every output is a well-formed opcode stream', verus=['core', 'mutv'], kani_quick=['u7_as_u8_all_kinds'] + U0, kani_thorough=U8_THOROUGH, scans=['textformats', 'stdlibdata'], level='proof',
         technique='Verus contracts: every emitter (all emit_and_process arms, emit_int/emit_string/emit_bytes/emit_global, emit_opcode, emit_proto, the FRAME patch) appends exactly one opcode whose bytes satisfy a hand-written wire-format predicate per argument class; Kani for the post-emission rewrite',
         claim='Safe mode: unbounded proof that each emission is exactly one well-formed opcode under the CPython table (known byte, complete argument, length prefix == payload length, '
               'EXT codes >= 1 under the signed reader, memo index non-negative) and that the output is header + these chunks + collapse tail + one final STOP. '
@@ -212,7 +212,7 @@ PROPS.update({
                                     'a printable-ASCII line contains no inner newline (text_ok is established only through these assumed specs)',
                                     'post_process_emission: at most a type-confusion rewrite of the current emission (dyn dispatch over the registered built-in mutators is assumed)']),
     'C05': dict(
-        title='Only opcodes of the requested protocol, right header', verus=['core', 'mutv'], kani_quick=U7, level='proof',
+        title='Only opcodes of the requested protocol, right header', verus=['core', 'mutv'], kani_quick=U7, scans=['stdlibdata'], level='proof',
         technique='Verus contracts: candidate set within the protocol table, emitted opcode in the chosen family and protocol, collapse-phase opcodes in protocol, PROTO header clause of generate_internal',
         claim='Proof that every opcode recorded in the trace (body and collapse tail) was introduced in protocol <= P, PROTO P is the first two bytes iff P >= 2.',
         note=_NOTE + ' Table content is assumed in Verus and proved exactly equal to the CPython vocabulary by the Kani harness u7_tables_exact; the protocol-0 7-bit-ASCII clause for payload bytes is not covered yet.',
@@ -244,7 +244,7 @@ PROPS.update({
         note=_NOTE + ' Equality of two runs additionally needs determinism of the callees (C07). generate()/generate_from_arbitrary() wrappers by inspection.',
         assumptions=_CORE_ASSUME),
     'C09': dict(
-        title='Generation is total', verus=['core', 'mutv'], kani_quick=U8_QUICK + U9_QUICK, level='proof',
+        title='Generation is total', verus=['core', 'mutv'], kani_quick=U8_QUICK + U9_QUICK, scans=['stdlibdata'], level='proof',
         technique='Verus exec-safety obligations (overflow, index bounds, unwrap) and decreases clauses on every loop of the functions under contract, generate_internal returns Ok; Kani panic/overflow checks on mutators and entropy adapters',
         claim='Proof of panic-freedom, termination and Ok result for the functions under contract, for all inputs and in every mode: process_stack_ops, cleanup_for_stop and the '
               'emitters are verified for ANY simulated state (unsafe mutations let the simulation drift), generate_internal_u returns Ok for every configuration.',
